@@ -15,14 +15,14 @@ Fixpoint base_of (l : list pmsg) : list msg :=
   end.
 
 Lemma base_of_app : forall a b, base_of (a ++ b) = base_of a ++ base_of b.
-Proof. induction a as [|[m|? ? ? ? ?|? ? ? ?] a IH]; intros b; cbn; rewrite ?IH; reflexivity. Qed.
+Proof. induction a as [|[m|? ? ? ? ?|? ? ? ?|? ? ?|? ? ?] a IH]; intros b; cbn; rewrite ?IH; reflexivity. Qed.
 
 Lemma base_of_map : forall l, base_of (map PB l) = l.
 Proof. induction l as [|m l IH]; cbn; [reflexivity|rewrite IH; reflexivity]. Qed.
 
 Lemma base_of_in : forall m l, In (PB m) l -> In m (base_of l).
 Proof.
-  intros m l. induction l as [|[x|? ? ? ? ?|? ? ? ?] l IH]; cbn; intros H; try (destruct H as [H|H]; [discriminate|auto]); [destruct H|].
+  intros m l. induction l as [|[x|? ? ? ? ?|? ? ? ?|? ? ?|? ? ?] l IH]; cbn; intros H; try (destruct H as [H|H]; [discriminate|auto]); [destruct H|].
   destruct H as [H|H]; [injection H as ->; left; reflexivity|right; auto].
 Qed.
 
@@ -51,7 +51,7 @@ Section PVRefine.
     assert (Hadv : forall n1, n_role n1 = Follower -> n_role (advance c0 c1 id n1) = Follower).
     { intros n1 H. unfold advance. rewrite H. exact H. }
     intros Hpre. apply Hadv. revert Hpre.
-    unfold handle_pv. destruct ev as [|p|[m|from to mt lt idx|from to mt rej]| | |]; cbn [fst snd].
+    unfold handle_pv. destruct ev as [|p|[m|from to mt lt idx|from to mt rej|from to mt|from to mt]| | |]; cbn [fst snd].
     - unfold hup_pv. destruct (n_role n); try discriminate;
         (destruct (is_voter c0 c1 id); [|discriminate]);
         (destruct (tally c0 c1 (become_precandidate id n)); cbn [fst snd]; try discriminate; intros _; reflexivity).
@@ -68,6 +68,13 @@ Section PVRefine.
       destruct pre; [|exact Hp].
       destruct (tally c0 c1 (record_vote from (negb rej) n)); cbn [fst snd]; try discriminate.
       intros _. unfold record_vote. destruct (n_votes n from); cbn; exact (Hp eq_refl).
+    - destruct (mt <? n_term n); [exact Hp|].
+      destruct (n_term n <? mt); cbn [fst snd]; [discriminate|].
+      destruct (n_role n) eqn:Er; cbn [fst snd].
+      + destruct pre; cbn [fst snd]; [intros _; exact Er|discriminate].
+      + intros H; pose proof (Hp H) as Hf; discriminate Hf.
+      + intros H; pose proof (Hp H) as Hf; discriminate Hf.
+    - destruct (n_term n <? mt); cbn [fst snd]; [discriminate|exact Hp].
     - discriminate.
     - exact Hp.
     - destruct (n_role n) eqn:Er; cbn [fst snd]; try discriminate; intros H; pose proof (Hp H) as Hf; congruence.
@@ -107,7 +114,7 @@ Section PVRefine.
     assert (Hcall : exists s1, reaches F s id (fst (fst (handle_pv c0 c1 id ev (n, pre))))
                                    (base_of (snd (handle_pv c0 c1 id ev (n, pre)))) s1).
     { assert (Hnop : exists s1, reaches F s id n (base_of []) s1) by (exists s; apply reaches_refl).
-      unfold handle_pv. destruct ev as [|p|[m|from to mt lt idx|from to mt rej]| | |]; cbn [fst snd].
+      unfold handle_pv. destruct ev as [|p|[m|from to mt lt idx|from to mt rej|from to mt|from to mt]| | |]; cbn [fst snd].
       - (* campaign *)
         unfold hup_pv. fold n. destruct (n_role n) eqn:Er; cbn [fst]; try exact Hnop;
           (destruct (is_voter c0 c1 id); cbn [fst]; [|exact Hnop]);
@@ -152,6 +159,21 @@ Section PVRefine.
             eexists. exact (reaches_trans F s id _ [] s1 _ [] _ R1 R2).
           * destruct (reaches_hup_at s1 id _ (proj1 (proj2 R1))) as [s2 R2]. exists s2.
             exact (reaches_trans F s id _ [] s1 _ [] s2 R1 R2).
+      - (* MsgTimeoutNow *)
+        destruct (mt <? n_term n); [exact Hnop|].
+        destruct (n_term n <? mt) eqn:E2; cbn [fst snd base_of].
+        + apply Nat.ltb_lt in E2.
+          assert (R1 : reaches F s id (become_follower id mt None n) [] (set_node s id (become_follower id mt None n))).
+          { eapply reaches_step; [apply (M_bump F s id mt None); exact E2|reflexivity|cbn; rewrite app_nil_r; reflexivity]. }
+          destruct (reaches_hup_at _ id _ (proj1 (proj2 R1))) as [s2 R2]. exists s2.
+          exact (reaches_trans F s id _ [] _ _ [] s2 R1 R2).
+        + destruct (n_role n) eqn:Er; cbn [fst snd base_of]; try exact Hnop.
+          destruct pre; cbn [fst snd base_of]; [exact Hnop|].
+          destruct (reaches_hup_at s id n eq_refl) as [s2 R2]. exists s2. exact R2.
+      - (* a forwarded MsgTransferLeader *)
+        destruct (n_term n <? mt) eqn:E2; cbn [fst snd base_of]; [|exact Hnop].
+        apply Nat.ltb_lt in E2.
+        eexists. eapply reaches_step; [apply (M_bump F s id mt None); exact E2|reflexivity|cbn; rewrite app_nil_r; reflexivity].
       - destruct (reaches_handle c0 c1 F HinF s id EvRestart) as [s1 R1]; [intros m Hm'; discriminate Hm'|].
         exists s1. exact R1.
       - exact Hnop.
@@ -171,7 +193,7 @@ Section PVRefine.
     induction extra as [|m extra IH]; intros s id pre H.
     - exists s. apply reaches_refl.
     - cbn [forallb] in H. apply andb_true_iff in H as [H1 H2].
-      destruct m as [b|from to term lt idx|from to term rej]; cbn [base_of].
+      destruct m as [b|from to term lt idx|from to term rej|from to term|from to term]; cbn [base_of].
       + cbn [emit_pv_okb fst] in H1.
         assert (R1 : reaches F s id (nodes s id) [b] (add_msgs s [b])).
         { split; [apply msteps_one; eapply M_emit; exact H1|]. split; [reflexivity|]. split; reflexivity. }
@@ -179,6 +201,8 @@ Section PVRefine.
         exact (reaches_trans F s id _ [b] _ _ _ s' R1 R2).
       + apply (IH s id pre H2).
       + cbn in H1. discriminate.
+      + apply (IH s id pre H2).
+      + apply (IH s id pre H2).
   Qed.
 
   (* ---------------------------------------------------------------- the simulation *)
